@@ -51,6 +51,9 @@ class Case:
         self.die, self.query, self.expect, self.what, self.is_block = die, query, expect, what, is_block
 
 
+DEEP_CHAINS = False
+
+
 def type_configs(version):
     """name -> (builder returning (type die or None, [extra top-level dies]), interpretation)
     interpretation: 'signed' | 'unsigned' | 'bool' | 'address' | 'unint' | ('enum', 'sdata'|'udata'|'mixed')"""
@@ -71,30 +74,50 @@ def type_configs(version):
         p = D("DW_TAG_pointer_type", [A("DW_AT_type", "DW_FORM_ref4", b)])
         return p, [b, p]
     cfgs["pointer"] = (ptr, "address")
-    for depth, tags in ((1, ["typedef"]), (2, ["const_type", "typedef"]), (3, ["volatile_type", "const_type", "typedef"])):
-        for enc, interp in (("signed", "signed"), ("unsigned", "unsigned")):
-            def chain(tags=tags, enc=enc):
-                b = base(enc)
-                cur, extra = b, [b]
-                for t in tags:
-                    cur = D("DW_TAG_" + t, [A("DW_AT_name", "DW_FORM_string", b"w")] * (t == "typedef") + [A("DW_AT_type", "DW_FORM_ref4", cur)])
-                    extra.append(cur)
-                return cur, extra
-            cfgs["chain%d_%s" % (depth, enc)] = (chain, interp)
+    # typedef / cv / enumeration chains, composed: P* [enumeration Q*] base, and P+ over an enumeration without underlying type
+    cv = ["typedef", "const_type", "volatile_type"]
+    seqs = [()] + [(a,) for a in cv]
+    if DEEP_CHAINS:
+        seqs += [(a, b) for a in cv for b in cv]
+    seqs_long = seqs + [("const_type", "typedef"), ("volatile_type", "const_type", "typedef")] * (not DEEP_CHAINS)
+
+    def wrap(cur, extra, tags):
+        for t in reversed(tags):
+            cur = D("DW_TAG_" + t, [A("DW_AT_name", "DW_FORM_string", b"w")] * (t == "typedef") + [A("DW_AT_type", "DW_FORM_ref4", cur)])
+            extra.append(cur)
+        return cur
+
+    def short(tags):
+        return "".join({"typedef": "t", "const_type": "c", "volatile_type": "v"}[t] for t in tags)
+
     for enc, interp in (("signed", "signed"), ("unsigned", "unsigned")):
-        def enum_with(enc=enc):
-            b = base(enc)
-            e = D("DW_TAG_enumeration_type", [A("DW_AT_name", "DW_FORM_string", b"E"), A("DW_AT_type", "DW_FORM_ref4", b)],
-                  [D("DW_TAG_enumerator", [A("DW_AT_name", "DW_FORM_string", b"e0"), A("DW_AT_const_value", "DW_FORM_data1", 0)])])
-            return e, [b, e]
-        cfgs["enum_under_%s" % enc] = (enum_with, interp)
+        for P in seqs_long:
+            if P:
+                def chain(P=P, enc=enc):
+                    b = base(enc)
+                    extra = [b]
+                    return wrap(b, extra, P), extra
+                cfgs["chain_%s_%s" % (short(P), enc)] = (chain, interp)
+        for P in seqs:
+            for Q in seqs:
+                def enum_with(P=P, Q=Q, enc=enc):
+                    b = base(enc)
+                    extra = [b]
+                    under = wrap(b, extra, Q)
+                    e = D("DW_TAG_enumeration_type", [A("DW_AT_name", "DW_FORM_string", b"E"), A("DW_AT_type", "DW_FORM_ref4", under)],
+                          [D("DW_TAG_enumerator", [A("DW_AT_name", "DW_FORM_string", b"e0"), A("DW_AT_const_value", "DW_FORM_data1", 0)])])
+                    extra.append(e)
+                    return wrap(e, extra, P), extra
+                cfgs["%senum_under_%s_%s" % (short(P) + "_" if P else "", short(Q), enc)] = (enum_with, interp)
     for kind in ("sdata", "udata", "mixed"):
-        def enum_wo(kind=kind):
-            forms = {"sdata": ["DW_FORM_sdata", "DW_FORM_sdata"], "udata": ["DW_FORM_udata", "DW_FORM_udata"], "mixed": ["DW_FORM_sdata", "DW_FORM_udata"]}[kind]
-            e = D("DW_TAG_enumeration_type", [A("DW_AT_name", "DW_FORM_string", b"F")],
-                  [D("DW_TAG_enumerator", [A("DW_AT_name", "DW_FORM_string", b"f%d" % i), A("DW_AT_const_value", f, 1)]) for i, f in enumerate(forms)])
-            return e, [e]
-        cfgs["enum_%s" % kind] = (enum_wo, ("enum", kind))
+        for P in seqs:
+            def enum_wo(kind=kind, P=P):
+                forms = {"sdata": ["DW_FORM_sdata", "DW_FORM_sdata"], "udata": ["DW_FORM_udata", "DW_FORM_udata"], "mixed": ["DW_FORM_sdata", "DW_FORM_udata"]}[kind]
+                e = D("DW_TAG_enumeration_type", [A("DW_AT_name", "DW_FORM_string", b"F")],
+                      [D("DW_TAG_enumerator", [A("DW_AT_name", "DW_FORM_string", b"f%d" % i), A("DW_AT_const_value", f, 1)]) for i, f in enumerate(forms)])
+                extra = [e]
+                return wrap(e, extra, P), extra
+            cfgs["%senum_%s" % (short(P) + "_" if P else "", kind)] = (enum_wo, ("enum", kind))
     cfgs["notype"] = (lambda: (None, []), "unint")
     return cfgs
 
@@ -142,12 +165,15 @@ def expect_const_value(form, width, raw, interp):
     return "unint"
 
 
-def build_file(version):
+def build_file(version, shard=(0, 1)):
+    """Shard k of m holds every m-th type configuration of part A; the other parts live in shard 0."""
     cases, top = [], []
     cfgs = type_configs(version)
     n = 0
     # ---- A
-    for cname, (mk, interp) in cfgs.items():
+    for ci, (cname, (mk, interp)) in enumerate(cfgs.items()):
+        if ci % shard[1] != shard[0]:
+            continue
         for form, width in const_value_forms(version):
             if form == "DW_FORM_sdata":
                 vals = [0, 1, -1, -(1 << 63), (1 << 63) - 1]
@@ -203,6 +229,8 @@ def build_file(version):
                     cases.append(Case(die, "@AT_const_value", exp, "const_value %s=%#x on %s with type config %s" % (form, v & ((1 << 64) - 1), tag[7:], cname),
                                       is_block=(eform == "block")))
     # ---- B
+    mark = (len(cases), list(top))
+
     def simple(attr, form, value, exp, what, tag="DW_TAG_variable"):
         die = D(tag, ([] if attr == "DW_AT_name" else [A("DW_AT_name", "DW_FORM_string", b"b%d" % len(cases))]) + [A(attr, form, value)])
         top.append(die)
@@ -257,6 +285,9 @@ def build_file(version):
         die = D("DW_TAG_variable", [A("DW_AT_name", "DW_FORM_string", b"l"), A(at, locform, [("DW_OP_addr", 0x10), ("DW_OP_deref",)])])
         top.append(die)
         cases.append(Case(die, "@" + at[3:], "LE:0:ffffffffffffffff:2@0", "%s as a single expression covers all addresses" % at))
+    if shard[0] != 0:
+        del cases[mark[0]:]
+        top[:] = mark[1]
     # ---- C: file names through line tables, own and integrated across units
     ptr = g.secptr_form(version, 4)
     if version >= 5:
@@ -318,10 +349,10 @@ def judge(case, results, err, stderr_text):
     return None if vals == [exp] else "yields %r, stored value decodes to %s" % (vals, exp)
 
 
-def run_version(d, version):
+def run_version(d, version, shard=(0, 1)):
     os.makedirs(dwbattery.DWDIR, exist_ok=True)
     path = os.path.join(dwbattery.DWDIR, "c07-%d-%d.o" % (os.getpid(), version))
-    elf, cases = build_file(version)
+    elf, cases = build_file(version, shard)
     elf.write(path)
     BAT.install(d)
     by_off = {}
@@ -366,10 +397,12 @@ def run_version(d, version):
 
 def _worker(d, chunk, extra):
     out = {"cases": 0, "bad": []}
-    for v in chunk:
-        n, bad = run_version(d, v)
+    global DEEP_CHAINS
+    DEEP_CHAINS = extra["deep"]
+    for v, k, m in chunk:
+        n, bad = run_version(d, v, (k, m))
         out["cases"] += n
-        out["bad"] += [(k, w, {"version": v, "key": k}) for k, w in bad]
+        out["bad"] += [(key, w, {"version": v, "shard": [k, m], "deep": DEEP_CHAINS, "key": key}) for key, w in bad]
     return out
 
 
@@ -377,7 +410,9 @@ def replay(case):
     ctx = common.Ctx("C07", "quick")
     d = drv.Drv(ctx.bin("zwdrv"), "full", timeout=120, cmd_timeout=60)
     try:
-        _, bad = run_version(d, case["version"])
+        global DEEP_CHAINS
+        DEEP_CHAINS = case.get("deep", False)
+        _, bad = run_version(d, case["version"], tuple(case.get("shard", (0, 1))))
         return any(k == case["key"] for k, _ in bad)
     finally:
         d.close()
@@ -385,8 +420,12 @@ def replay(case):
 
 def main(ctx):
     bins = ctx.build(["zwdrv"])
+    global DEEP_CHAINS
+    DEEP_CHAINS = ctx.tier == "thorough"
     versions = [2, 3, 4, 5]
-    for r in common.pmap(ctx, _worker, [[v] for v in versions], bins["zwdrv"], "full", timeout=300, cmd_timeout=120, procs=4):
+    m = 16 if DEEP_CHAINS else 4
+    for r in common.pmap(ctx, _worker, [[(v, k, m)] for k in range(m) for v in versions], bins["zwdrv"], "full", extra={"deep": DEEP_CHAINS},
+                         timeout=300, cmd_timeout=120):
         ctx.count("cases", r["cases"])
         for key, what, case in r["bad"]:
             ctx.violation(key, what, case)
@@ -397,7 +436,8 @@ def main(ctx):
         "states": n, "transitions": n, "traces_validated_against_impl": n, "evaluations": n, "distinct_nontrivial": n,
         "rule": "state = one (attribute, form, type configuration, boundary value) combination stored in a generated file and decoded by `@AT_x` on the engine; "
                 "compared with the decoding table of the property statement; distinct = distinct combination",
-        "bounds": {"versions": versions, "type_configurations": list(type_configs(5)), "const_value_forms": [f for f, _ in const_value_forms(5)],
+        "bounds": {"versions": versions, "type_configurations": list(type_configs(5)),
+                   "type_chain_grammar": "P* [enumeration Q*] base and P+ over an enumeration without underlying type; P, Q sequences of typedef/const/volatile of length <= %d" % (2 if DEEP_CHAINS else 1), "const_value_forms": [f for f, _ in const_value_forms(5)],
                    "enumerated_attributes": list(ENUM_DOMS), "unsigned_attributes": UNSIGNED_ATS, "signed_attributes": SIGNED_ATS},
     }
     return ctx.finish("model_checking", cov, [
